@@ -44,7 +44,7 @@ Passes(r, o) == /\ (o.include.given => Listed(r, o.include.items))
 ResultsOf(tb, cfg, names) ==
     LET acc == CoverAcc(Yields(tb, cfg), NRows(tb), MASKED) IN
     { [stream |-> key[1], fn |-> key[2], flags |-> acc[key],
-       schars |-> names[key[1]], pchars |-> names["qartod"], tchars |-> names[key[2]]] : key \in DOMAIN acc }
+       schars |-> names[key[1]], pchars |-> names[ModName(key[2])], tchars |-> names[key[2]]] : key \in DOMAIN acc }
 
 \* observed frame: sequence of columns [name (chars), vals (one per row; MASKED = empty)]
 AxisNames == { <<"t","i","m","e">>, <<"z">>, <<"l","a","t">>, <<"l","o","n">> }
@@ -73,20 +73,21 @@ FrameOK(frame, tb, cfg, names, o) ==
                                    /\ NoCollision(R) => SafeOf(f[r].name, RawName(r)),
       axes    |-> /\ (~o.write_axes => axis = {})
                   /\ (o.write_axes /\ R # {}) =>
-                        /\ \E c \in axis : c.name = <<"t","i","m","e">>
+                        /\ tb.hastime => \E c \in axis : c.name = <<"t","i","m","e">>
                         /\ (tb.z # <<>>) => \E c \in axis : c.name = <<"z">>
                         /\ (tb.lat # <<>>) => \E c \in axis : c.name = <<"l","a","t">>
                         /\ (tb.lon # <<>>) => \E c \in axis : c.name = <<"l","o","n">>
                   /\ \A c \in axis :
-                        LET src == CASE c.name = <<"t","i","m","e">> -> tb.t [] c.name = <<"z">> -> tb.z
+                        LET src == CASE c.name = <<"t","i","m","e">> -> TimeOf(tb) [] c.name = <<"z">> -> tb.z
                                      [] c.name = <<"l","a","t">> -> tb.lat [] OTHER -> tb.lon
                         IN  IF src = <<>> THEN \A i \in 1..Len(c.vals) : c.vals[i] = NA      \* no such input: empty
                             ELSE Len(src) = Len(c.vals) /\ \A i \in 1..Len(src) : c.vals[i] \in {src[i], NA},
+      \* one data column per stream that has a result: source values, at least on the rows of one of its results
       data    |-> /\ (~o.write_data => data = {})
-                  /\ o.write_data => \A r \in R : \E c \in data :
-                        /\ c.name = names[r.stream]
-                        /\ \A i \in 1..n : c.vals[i] \in {tb.data[r.stream][i], NA}
-                        /\ \A i \in 1..n : r.flags[i] # MASKED => c.vals[i] = tb.data[r.stream][i] ]
+                  /\ o.write_data => \A s \in { r.stream : r \in R } : \E c \in data :
+                        /\ c.name = names[s]
+                        /\ \A i \in 1..n : c.vals[i] \in {tb.data[s][i], NA}
+                        /\ \E r \in R : r.stream = s /\ \A i \in 1..n : r.flags[i] # MASKED => c.vals[i] = tb.data[s][i] ]
 
 \* a frame that satisfies the property, built from the model itself (used by MC_Store to show that
 \* FrameOK is satisfiable on every instance, and as the reference of the naming rule)
@@ -94,7 +95,7 @@ SpecSafe(raw) == LET s == Sanitize(raw) IN IF Len(s) >= 1 /\ s[1] \notin Digits 
 SpecFrame(tb, cfg, names, o) ==
     LET R  == { r \in ResultsOf(tb, cfg, names) : Passes(r, o) }
         ax == IF o.write_axes /\ R # {}
-              THEN << [name |-> <<"t","i","m","e">>, vals |-> tb.t] >>
+              THEN (IF tb.hastime THEN << [name |-> <<"t","i","m","e">>, vals |-> tb.t] >> ELSE <<>>)
                    \o (IF tb.z # <<>> THEN << [name |-> <<"z">>, vals |-> tb.z] >> ELSE <<>>)
                    \o (IF tb.lat # <<>> THEN << [name |-> <<"l","a","t">>, vals |-> tb.lat] >> ELSE <<>>)
                    \o (IF tb.lon # <<>> THEN << [name |-> <<"l","o","n">>, vals |-> tb.lon] >> ELSE <<>>)
